@@ -152,7 +152,9 @@ func buildEBNF(root bool, n node, seen map[node]string, p *ebnfp, outp *[]*ebnfp
 		}
 
 	case *parseable:
-		p.out += n.t.Name()
+		// An anonymous struct type (one that embeds a Parseable, say) has no name of its own: it is numbered.
+		name, _ := productionName(n, n.t, seen)
+		p.out += name
 
 	case *capture:
 		buildEBNF(false, n.node, seen, p, outp)
